@@ -28,7 +28,7 @@ def gen_tissue(rng):
     lvl = rng.choice([1, 1, 1, 2])
     edge = 2 * R * math.sin(math.radians(31.7)) / (2 ** lvl)          # approximate edge length of the icosphere
     cut = edge * rng.choice([0.1, 0.3, 0.5, 1.0, 2.0])
-    lmin = edge * rng.choice([0.5, 0.8, 1.0])
+    lmin = edge * rng.choice([0.5, 0.8, 1.0, 0.25, 0.1])      # also faces much longer than the minimum edge length: their padded boxes span three and more voxels per axis
     if kind in ("row", "cluster", "overlap", "apart"):
         nc = rng.randint(2, 6 if lvl == 1 else 3)
         gap = {"row": rng.choice([-0.1 * R, -0.02 * R, 0.0, 0.3 * cut, 0.9 * cut]), "cluster": rng.choice([-0.05 * R, 0.3 * cut]), "overlap": -rng.choice([0.05, 0.2, 0.6]) * R, "apart": rng.choice([1.01, 3.0]) * cut}[kind]
